@@ -271,7 +271,7 @@ func (g *progGen) Gen(t *T, d int) string {
 			return "isset(" + g.Gen(tmap(k, g.randType(0)), d-1) + ", " + sub(k) + ")"
 		case 7:
 			if !g.noFail {
-				return "match(" + sub(tstr()) + ", " + sub(tstr()) + ")"
+				return "match(" + g.leaf(tstr()) + ", " + g.leaf(tstr()) + ")"
 			}
 		case 8:
 			if g.useFns {
